@@ -409,10 +409,59 @@ def traversal_errors_surface(ctx: Ctx, rule: str) -> None:
                "although that worker ran nothing more")
 
 
+MUTATORS = ("update", "setdefault", "pop", "popitem", "clear", "__setitem__", "__delitem__")
+
+
+def chain_parameters_shared(ctx: Ctx, rule: str) -> None:
+    """`config["param_dict"]` is the one parameter set every step of a chain starts from (Manu.run hands the same `config` to each step in turn):
+    a step that writes into it (directly or through a local that aliases it, i.e. assigned without .copy()) changes what all later steps run
+    with - other vms, other workers, other modes.  Writers allowed: the temporary-parameter helper whose save/restore pairing rule 5p checks."""
+    tree = ctx.repo.module(IS)
+    allowed = {"_reuse_tool_with_param_dict"}
+    shared = "config['param_dict']"
+    bad, n_fn, n_reads = [], 0, 0
+    for fn_ in tree.body:
+        if not isinstance(fn_, ast.FunctionDef) or "config" not in [a.arg for a in fn_.args.args]:
+            continue
+        n_fn += 1
+        ctx.touch(f"{IS}:{fn_.name}")
+        aliases = {shared}
+        for a in ast.walk(fn_):
+            if isinstance(a, ast.Assign):
+                for t in a.targets:
+                    pairs = list(zip(t.elts, a.value.elts)) if isinstance(t, ast.Tuple) and isinstance(a.value, ast.Tuple) and len(t.elts) == len(a.value.elts) else [(t, a.value)]
+                    for tt, vv in pairs:
+                        if isinstance(tt, ast.Name) and ast.unparse(vv) in (shared,):
+                            aliases.add(tt.id)
+        n_reads += sum(1 for x in ast.walk(fn_) if isinstance(x, ast.Subscript) and ast.unparse(x) == shared)
+        if fn_.name in allowed:
+            continue
+        for x in ast.walk(fn_):
+            site = None
+            if isinstance(x, (ast.Assign, ast.AugAssign, ast.Delete)):
+                tg = x.targets if isinstance(x, (ast.Assign, ast.Delete)) else [x.target]
+                for t in tg:
+                    for tt in (t.elts if isinstance(t, ast.Tuple) else [t]):
+                        if isinstance(tt, ast.Subscript) and ast.unparse(tt.value) in aliases:
+                            site = ast.unparse(x)
+                        elif isinstance(x, ast.Assign) and isinstance(tt, ast.Subscript) and ast.unparse(tt) == shared:
+                            site = ast.unparse(x)
+            elif isinstance(x, ast.Call) and isinstance(x.func, ast.Attribute) and x.func.attr in MUTATORS and ast.unparse(x.func.value) in aliases:
+                site = ast.unparse(x)
+            if site:
+                bad.append((fn_.name, site[:100], x.lineno))
+    if n_fn < 20 or n_reads < 20:
+        raise AnalysisError(f"only {n_fn} steps with a config argument / {n_reads} reads of config['param_dict'] found")
+    ctx.record(rule, "OWNER", IS, "no manual step writes into config['param_dict'] (the parameters shared by all steps of the chain) or an alias of it; steps work on copies",
+               not bad, {"steps": n_fn, "reads": n_reads, "writers": [f"{f}: {t}" for f, t, _ in bad]},
+               "" if not bad else f"step `{bad[0][0]}` writes into the parameters every later step of the chain starts from: {bad[0][1]}")
+
+
 def run(ctx: Ctx) -> None:
-    from .c10 import verdict
+    from .c10 import status_rewrites, verdict
 
     ctx.call(verdict, "7", tools_only=True)
+    ctx.call(status_rewrites, "7z")
     ctx.call(unset_default, "6")
     ctx.call(traversal_errors_surface, "8")
     ctx.call(chain_loop, "1")
@@ -425,10 +474,13 @@ def run(ctx: Ctx) -> None:
         "cartgraph/graph.py:TestGraph.flag_children": {"node_name": "''", "object_name": "''", "worker_name": "''", "flag_type": "'run'", "skip_parents": "False", "skip_children": "False"},
     }, "manual steps flag every node from the shared root")
     ctx.call(step_table, "5")
+    ctx.call(chain_parameters_shared, "9")
 
 
 M = "plugins/manu.py"
 MUTANTS = [
+    ("slow-failure-becomes-warn", "plugins/runner.py", "                    if (\n                        test_result[\"status\"] == \"PASS\"\n                        and float(duration) > 1.25 * max_allowed\n                    ):", "                    if float(duration) > 1.25 * max_allowed:", "7z"),
+    ("list-step-writes-shared-parameters", "intertest_setup.py", "        setup_dict = config[\"param_dict\"].copy()\n        # listing can only be done in serial mode\n        setup_dict[\"nets\"] = config[\"param_dict\"].get(\"nets\", \"net0\")", "        setup_dict = config[\"param_dict\"]\n        # listing can only be done in serial mode\n        setup_dict.setdefault(\"nets\", \"net0\")", "9"),
     ("chain-deduplicated", "plugins/manu.py", "        setup_chain = run_params.get(\"setup\", \"\").split()", "        setup_chain = run_params.objects(\"setup\")", "1"),
     ("P-chain-split-on-space", "plugins/manu.py", "        setup_chain = run_params.get(\"setup\", \"\").split()", "        setup_chain = run_params.get(\"setup\", \"\").split(\" \")", None),
     ("worker-death-swallowed", "plugins/runner.py", "asyncio.wait_for(asyncio.gather(*to_traverse), self.job.timeout or None)", "asyncio.wait_for(asyncio.gather(*to_traverse, return_exceptions=True), self.job.timeout or None)", "8"),
